@@ -997,9 +997,10 @@ Proof.
   cbn [read_block_loop] in H. destruct s as [|c t]; [discriminate|].
   inversion Hs as [|? ? Hc Ht]; subst.
   destruct (starts3 34 34 34 (c :: t)) eqn:E3.
-  { injection H as _ Hraw _ _. rewrite <- Hraw. split.
-    - apply Forall_rev. constructor; [apply Forall_rev, Hcur|exact Hlines].
-    - intros E. apply (f_equal (@length _)) in E. rewrite rev_length in E. discriminate. }
+  { injection H as _ Hraw _ _. rewrite <- Hraw. cbn [rev]. split.
+    - apply Forall_app. split; [apply Forall_rev, Hlines|].
+      constructor; [apply Forall_rev, Hcur|constructor].
+    - intros E. apply app_eq_nil in E as [_ E]. discriminate. }
   destruct ((c =? 92) && starts3 34 34 34 t) eqn:Eb.
   { apply andb_true_iff in Eb as [_ Eb]. apply starts3_true in Eb as (t' & ->).
     inversion Ht as [|? ? Hq Ht1]; subst. inversion Ht1 as [|? ? _ Ht2]; subst.
@@ -1056,11 +1057,10 @@ Proof.
     destruct (drop_while_blank M) as [|x M1]; [left; reflexivity|]. cbn [hd] in Hd. right.
     cbn [rev] in *. rewrite dwb_snoc in * by exact Hd.
     rewrite rev_app_distr. cbn [rev app hd]. split; [exact Hd|].
-    rewrite <- (rev_involutive M1) at 1.
     change (x :: rev (drop_while_blank (rev M1))) with ([x] ++ rev (drop_while_blank (rev M1))).
     destruct (drop_while_blank (rev M1)) as [|z Z] eqn:EZ; [exact Hd|].
     cbn [rev]. rewrite app_assoc, last_last.
-    destruct Hd2 as [Hd2|Hd2]; [destruct Z; discriminate|]. exact Hd2.
+    destruct Hd2 as [Hd2|Hd2]; [discriminate|]. exact Hd2.
 Qed.
 
 Lemma all_blank_dwb Bk : all_blank Bk -> drop_while_blank Bk = [].
@@ -1069,7 +1069,7 @@ Proof. intros H. rewrite <- (app_nil_r Bk). rewrite dwb_blank_prefix by exact H.
 Lemma trim_single x Bk : all_blank Bk -> trim (x :: Bk) = if line_blank x then [] else [x].
 Proof.
   intros H. destruct (line_blank x) eqn:E.
-  - unfold trim. cbn [drop_while_blank]. rewrite E, all_blank_dwb by exact H. reflexivity.
+  - unfold trim. cbn [drop_while_blank]. rewrite E, (all_blank_dwb Bk H). reflexivity.
   - apply (trim_eq [] [x] Bk); [constructor|exact H|discriminate|exact E|exact E].
 Qed.
 
@@ -1168,14 +1168,16 @@ Proof.
   destruct (trim_split M) as (A & B & EM & HA & HB & [Ht|[Hh Hl]]); [congruence|].
   rewrite ED in Hh, Hl. cbn [hd] in Hh. split; [exact Hh|]. split; [exact Hl|].
   destruct (common_indent others) as [k|] eqn:Eci.
-  - assert (Hz : existsb zero_indent_line (trim M) = true).
-    { apply existsb_zil_in_trim. unfold M. cbn [existsb]. rewrite (ci_some_zil others k Eci). apply orb_true_r. }
+  - assert (EMk : M = first :: map (skipn k) others) by (unfold M; rewrite ?Eci; reflexivity).
+    assert (Hz : existsb zero_indent_line (trim M) = true).
+    { apply existsb_zil_in_trim. rewrite EMk. cbn [existsb]. rewrite (ci_some_zil others k Eci). apply orb_true_r. }
     rewrite ED in Hz. cbn [existsb] in Hz. apply orb_true_iff in Hz as [Hz|Hz].
     + right. right. unfold zero_indent_line in Hz. apply andb_true_iff in Hz as [_ Hz]. apply Nat.eqb_eq, Hz.
     + right. left. exact Hz.
   - left. assert (Hb : all_blank (map (fun _ : list N => @nil N) others)).
     { apply Forall_forall. intros x Hx. apply in_map_iff in Hx as (l & <- & _). reflexivity. }
-    unfold M in ED. rewrite (trim_single first _ Hb) in ED.
+    assert (EMn : M = first :: map (fun _ : list N => @nil N) others) by (unfold M; rewrite ?Eci; reflexivity).
+    rewrite EMn, (trim_single first _ Hb) in ED.
     destruct (line_blank first); [discriminate|]. inversion ED; subst. reflexivity.
 Qed.
 
@@ -1248,4 +1250,140 @@ Proof.
   - eapply adv_forall; [exact A|exact Hs].
   - unfold scalars. apply join_lf_forall; [reflexivity|]. apply dedent_forall.
     eapply Forall_impl; [|exact Hr]. intros l. apply Forall_impl. intros c [Hc _]. exact Hc.
+Qed.
+
+(* ================================================================== *)
+(* I. exactness of the characterisation                                *)
+(* ================================================================== *)
+
+Lemma block_value_token raw v : block_value raw = Ok v ->
+  exists tk cu' r, read_token init_cursor (TQ ++ raw ++ TQ) = Ok (tk, cu', r) /\
+                   tkind tk = K_BLOCK_STRING /\ tvalue tk = v.
+Proof.
+  unfold block_value. destruct (read_token init_cursor (TQ ++ raw ++ TQ)) as [[[tk cu'] r]| | |] eqn:E;
+    try discriminate.
+  intros H. inversion H; subst. exists tk, cu', r. split; [reflexivity|]. split; [|reflexivity].
+  unfold TQ in E. cbn [app] in E. rewrite read_token_block in E.
+  destruct (read_block_loop _ _ _ _ _ _) as [[[[e raw'] ls'] rest]| | |]; try discriminate.
+  inversion E; subst. reflexivity.
+Qed.
+
+Theorem block_value_in_range raw v : block_value raw = Ok v -> in_block_range v = true.
+Proof.
+  intros H. destruct (block_value_token raw v H) as (tk & cu' & r & E & Hk & <-).
+  eapply block_token_in_range; eauto.
+Qed.
+
+Definition chosen_raw (v : list N) : list N :=
+  (if before_b v false then [LF] else []) ++ escape_tq v ++ (if after_b v false then [LF] else []).
+
+Lemma print_chosen v : has_cr v = false -> print_block_string v false = TQ ++ chosen_raw v ++ TQ.
+Proof. intros H. rewrite (print_eq v false H). unfold chosen_raw. rewrite <- !app_assoc. reflexivity. Qed.
+
+Theorem range_has_raw v : in_block_range v = true -> scalars v ->
+  scalars (chosen_raw v) /\ block_value (chosen_raw v) = Ok v.
+Proof.
+  intros Hr Hs. split.
+  - unfold chosen_raw, scalars. apply Forall_app. split; [destruct (before_b v false); repeat constructor|].
+    apply Forall_app. split; [apply esc_forall; [reflexivity|exact Hs]|].
+    destruct (after_b v false); repeat constructor.
+  - destruct (block_roundtrip_main v false [] init_cursor [] Hr Hs (Forall_nil _))
+      as (tk & cu' & E & _ & _ & Hv & _).
+    cbn [indent_all] in E. rewrite app_nil_r in E.
+    destruct (range_unpack v Hr) as (Hcr & _). rewrite (print_chosen v Hcr) in E.
+    unfold block_value. rewrite E, Hv. reflexivity.
+Qed.
+
+Theorem block_range_char_main v :
+  (in_block_range v = true /\ scalars v) <-> (exists raw, scalars raw /\ block_value raw = Ok v).
+Proof.
+  split.
+  - intros [Hr Hs]. exists (chosen_raw v). apply range_has_raw; assumption.
+  - intros (raw & Hraw & H). split; [eapply block_value_in_range; eauto|].
+    destruct (block_value_token raw v H) as (tk & cu' & r & E & Hk & <-).
+    eapply block_token_scalars; [|exact E|exact Hk].
+    unfold scalars. apply Forall_app. split; [repeat constructor|].
+    apply Forall_app. split; [exact Hraw|repeat constructor].
+Qed.
+
+(* ================================================================== *)
+(* J. printable implies in range                                       *)
+(* ================================================================== *)
+
+Definition pinv (ie hi hci seen : bool) (s : list N) : Prop :=
+  has_cr s = false /\
+  exists l0 L', split_lf s = l0 :: L' /\
+    (match L' with [] => ie && line_blank l0 = false | _ => line_blank (last L' []) = false end) /\
+    (seen = false -> L' <> [] -> ie && line_blank l0 = false) /\
+    ((seen = false /\ L' = []) \/ hci = false \/
+     (line_blank l0 = false /\ hi || (ie && Nat.ltb 0 (leading_ws l0)) = false) \/
+     existsb zero_indent_line L' = true).
+
+Lemma line_blank_cons_blank c l : is_blank_char c = true -> line_blank (c :: l) = line_blank l.
+Proof. intros H. unfold line_blank. cbn [leading_ws length]. rewrite H. reflexivity. Qed.
+
+Lemma line_blank_cons_nonblank c l : is_blank_char c = false -> line_blank (c :: l) = false.
+Proof. intros H. unfold line_blank. cbn [leading_ws length]. rewrite H. reflexivity. Qed.
+
+Lemma has_cr_cons c t : has_cr (c :: t) = (c =? CR) || has_cr t.
+Proof. unfold has_cr. cbn [existsb]. rewrite (N.eqb_sym CR c). reflexivity. Qed.
+
+Lemma printable_loop_inv s : forall ie hi hci seen,
+  printable_loop ie hi hci seen s = true -> pinv ie hi hci seen s.
+Proof.
+  induction s as [|c t IH]; intros ie hi hci seen H.
+  - cbn [printable_loop] in H. apply andb_true_iff in H as [H1 H2].
+    apply negb_true_iff in H1, H2. subst ie. split; [reflexivity|].
+    exists [], []. split; [reflexivity|]. split; [reflexivity|]. split; [congruence|].
+    apply andb_false_iff in H2 as [H2|H2]; [right; left; exact H2|left; split; [exact H2|reflexivity]].
+  - cbn [printable_loop] in H. destruct (c =? LF) eqn:El.
+    + apply N.eqb_eq in El. subst c.
+      destruct (ie && negb seen) eqn:E1; [discriminate|].
+      destruct (IH _ _ _ _ H) as (Hcr & l0' & L'' & Es & G2 & G3 & G4).
+      split; [rewrite has_cr_cons, Hcr; reflexivity|].
+      exists [], (l0' :: L''). split; [cbn [split_lf]; change (LF =? LF) with true; rewrite Es; reflexivity|].
+      split; [|split].
+      * destruct L'' as [|m L3]; [cbn [last]; cbn [andb] in G2; exact G2|exact G2].
+      * intros Hseen _. subst seen. cbn [negb] in E1. rewrite andb_true_r in E1. subst ie. reflexivity.
+      * destruct G4 as [[G4 _]|[G4|[[G4a G4b]|G4]]]; [discriminate|right; left; exact G4| |].
+        -- right. right. right. cbn [existsb]. cbn [orb andb] in G4b.
+           unfold zero_indent_line. rewrite G4a. apply Nat.ltb_ge in G4b.
+           replace (leading_ws l0') with 0%nat by lia. reflexivity.
+        -- right. right. right. cbn [existsb]. rewrite G4. apply orb_true_r.
+    + destruct (is_blank_char c) eqn:Eb.
+      * destruct (IH _ _ _ _ H) as (Hcr & l0' & L'' & Es & G2 & G3 & G4).
+        destruct (blank_props c Eb) as (_ & _ & _ & Ecr & _).
+        split; [rewrite has_cr_cons, Hcr, Ecr; reflexivity|].
+        exists (c :: l0'), L''. split; [cbn [split_lf]; rewrite El, Es; reflexivity|].
+        rewrite (line_blank_cons_blank c l0' Eb). split; [exact G2|]. split; [exact G3|].
+        destruct G4 as [G4|[G4|[[G4a G4b]|G4]]]; [left; exact G4|right; left; exact G4| |right; right; right; exact G4].
+        right. right. left. split; [exact G4a|]. cbn [leading_ws]. rewrite Eb.
+        apply orb_false_iff in G4b as [G4b _]. apply orb_false_iff in G4b as [-> ->]. reflexivity.
+      * destruct (c <=? 15) eqn:E15; [discriminate|].
+        destruct (IH _ _ _ _ H) as (Hcr & l0' & L'' & Es & G2 & G3 & G4).
+        assert (Ecr : (c =? CR) = false).
+        { apply N.leb_gt in E15. apply N.eqb_neq. unfold CR. lia. }
+        split; [rewrite has_cr_cons, Hcr, Ecr; reflexivity|].
+        exists (c :: l0'), L''. split; [cbn [split_lf]; rewrite El, Es; reflexivity|].
+        rewrite (line_blank_cons_nonblank c l0' Eb). split; [|split].
+        -- destruct L''; [apply andb_false_r|exact G2].
+        -- intros _ _. apply andb_false_r.
+        -- cbn [leading_ws]. rewrite Eb. cbn [Nat.ltb Nat.leb]. rewrite andb_false_r, orb_false_r.
+           destruct G4 as [G4|[G4|[[G4a G4b]|G4]]]; [left; exact G4| | |right; right; right; exact G4].
+           ++ apply andb_false_iff in G4 as [G4|G4]; [right; left; exact G4|].
+              right. right. left. split; [reflexivity|exact G4].
+           ++ right. right. left. split; [reflexivity|]. cbn [andb] in G4b. rewrite orb_false_r in G4b. exact G4b.
+Qed.
+
+Theorem printable_in_range_main v : is_printable_as_block_string v = true -> in_block_range v = true.
+Proof.
+  destruct v as [|c t]; [reflexivity|]. unfold is_printable_as_block_string. intros H.
+  apply printable_loop_inv in H as (Hcr & l0 & L' & Es & G2 & G3 & G4).
+  apply range_intro; [exact Hcr|]. right. rewrite Es. cbn [hd tl length].
+  assert (H0 : line_blank l0 = false).
+  { destruct L' as [|m L3]; [exact G2|]. apply (G3 eq_refl). discriminate. }
+  split; [exact H0|]. split.
+  - destruct L' as [|m L3]; [exact H0|exact G2].
+  - destruct G4 as [[_ ->]|[G4|[[_ G4]|G4]]]; [left; reflexivity|discriminate| |right; left; exact G4].
+    right. right. cbn [orb andb] in G4. apply Nat.ltb_ge in G4. lia.
 Qed.
